@@ -48,7 +48,11 @@
 
    Ghost (never read by guard / proj): npop (local.pop calls of w), ncoll (completed collect_global calls),
    nsel (completed select calls = rounds of the loop), coll0 (ncoll at the start of the round), ngrab c (how
-   often c was taken out of a run queue), slept. *)
+   often c was taken out of a global queue: bulk_pop of collect_global), ntake c (how often c was taken out of a
+   local queue: local.pop of its worker, or the bulk_pop of a thief), slept.
+
+   run_coroutine returns (LCoRet) when the stack of the worker is unwound and nothing is held in local variables:
+   every kernel half of SchedModel has handed the coroutine on (queue / slot / drop) before it ends. *)
 From Coq Require Import List Arith ZArith NArith Bool Lia.
 Import ListNotations.
 Require Import MayV.Rt.SchedModel.
@@ -91,32 +95,36 @@ Record lst := {
   ncoll : nat -> nat;
   nsel : nat -> nat;
   coll0 : nat -> nat;
-  ngrab : nat -> nat }.
+  ngrab : nat -> nat;
+  ntake : nat -> nat }.
 
-Definition mkl b p e t d sl n o an pr np nc ns c0 ng :=
+Definition mkl b p e t d sl n o an pr np nc ns c0 ng nt :=
   {| base := b; wpc := p; evfd := e; tmo := t; dl := d; slept := sl; now := n; owed := o; anon := an; pre := pr;
-     npop := np; ncoll := nc; nsel := ns; coll0 := c0; ngrab := ng |}.
-Definition l_base l x := mkl x (wpc l) (evfd l) (tmo l) (dl l) (slept l) (now l) (owed l) (anon l) (pre l) (npop l) (ncoll l) (nsel l) (coll0 l) (ngrab l).
-Definition l_wpc l x := mkl (base l) x (evfd l) (tmo l) (dl l) (slept l) (now l) (owed l) (anon l) (pre l) (npop l) (ncoll l) (nsel l) (coll0 l) (ngrab l).
-Definition l_evfd l x := mkl (base l) (wpc l) x (tmo l) (dl l) (slept l) (now l) (owed l) (anon l) (pre l) (npop l) (ncoll l) (nsel l) (coll0 l) (ngrab l).
-Definition l_tmo l x := mkl (base l) (wpc l) (evfd l) x (dl l) (slept l) (now l) (owed l) (anon l) (pre l) (npop l) (ncoll l) (nsel l) (coll0 l) (ngrab l).
-Definition l_dl l x := mkl (base l) (wpc l) (evfd l) (tmo l) x (slept l) (now l) (owed l) (anon l) (pre l) (npop l) (ncoll l) (nsel l) (coll0 l) (ngrab l).
-Definition l_slept l x := mkl (base l) (wpc l) (evfd l) (tmo l) (dl l) x (now l) (owed l) (anon l) (pre l) (npop l) (ncoll l) (nsel l) (coll0 l) (ngrab l).
-Definition l_now l x := mkl (base l) (wpc l) (evfd l) (tmo l) (dl l) (slept l) x (owed l) (anon l) (pre l) (npop l) (ncoll l) (nsel l) (coll0 l) (ngrab l).
-Definition l_owed l x := mkl (base l) (wpc l) (evfd l) (tmo l) (dl l) (slept l) (now l) x (anon l) (pre l) (npop l) (ncoll l) (nsel l) (coll0 l) (ngrab l).
-Definition l_anon l x := mkl (base l) (wpc l) (evfd l) (tmo l) (dl l) (slept l) (now l) (owed l) x (pre l) (npop l) (ncoll l) (nsel l) (coll0 l) (ngrab l).
-Definition l_pre l x := mkl (base l) (wpc l) (evfd l) (tmo l) (dl l) (slept l) (now l) (owed l) (anon l) x (npop l) (ncoll l) (nsel l) (coll0 l) (ngrab l).
-Definition l_npop l x := mkl (base l) (wpc l) (evfd l) (tmo l) (dl l) (slept l) (now l) (owed l) (anon l) (pre l) x (ncoll l) (nsel l) (coll0 l) (ngrab l).
-Definition l_ncoll l x := mkl (base l) (wpc l) (evfd l) (tmo l) (dl l) (slept l) (now l) (owed l) (anon l) (pre l) (npop l) x (nsel l) (coll0 l) (ngrab l).
-Definition l_nsel l x := mkl (base l) (wpc l) (evfd l) (tmo l) (dl l) (slept l) (now l) (owed l) (anon l) (pre l) (npop l) (ncoll l) x (coll0 l) (ngrab l).
-Definition l_coll0 l x := mkl (base l) (wpc l) (evfd l) (tmo l) (dl l) (slept l) (now l) (owed l) (anon l) (pre l) (npop l) (ncoll l) (nsel l) x (ngrab l).
-Definition l_ngrab l x := mkl (base l) (wpc l) (evfd l) (tmo l) (dl l) (slept l) (now l) (owed l) (anon l) (pre l) (npop l) (ncoll l) (nsel l) (coll0 l) x.
+     npop := np; ncoll := nc; nsel := ns; coll0 := c0; ngrab := ng; ntake := nt |}.
+Definition l_base l x := mkl x (wpc l) (evfd l) (tmo l) (dl l) (slept l) (now l) (owed l) (anon l) (pre l) (npop l) (ncoll l) (nsel l) (coll0 l) (ngrab l) (ntake l).
+Definition l_wpc l x := mkl (base l) x (evfd l) (tmo l) (dl l) (slept l) (now l) (owed l) (anon l) (pre l) (npop l) (ncoll l) (nsel l) (coll0 l) (ngrab l) (ntake l).
+Definition l_evfd l x := mkl (base l) (wpc l) x (tmo l) (dl l) (slept l) (now l) (owed l) (anon l) (pre l) (npop l) (ncoll l) (nsel l) (coll0 l) (ngrab l) (ntake l).
+Definition l_tmo l x := mkl (base l) (wpc l) (evfd l) x (dl l) (slept l) (now l) (owed l) (anon l) (pre l) (npop l) (ncoll l) (nsel l) (coll0 l) (ngrab l) (ntake l).
+Definition l_dl l x := mkl (base l) (wpc l) (evfd l) (tmo l) x (slept l) (now l) (owed l) (anon l) (pre l) (npop l) (ncoll l) (nsel l) (coll0 l) (ngrab l) (ntake l).
+Definition l_slept l x := mkl (base l) (wpc l) (evfd l) (tmo l) (dl l) x (now l) (owed l) (anon l) (pre l) (npop l) (ncoll l) (nsel l) (coll0 l) (ngrab l) (ntake l).
+Definition l_now l x := mkl (base l) (wpc l) (evfd l) (tmo l) (dl l) (slept l) x (owed l) (anon l) (pre l) (npop l) (ncoll l) (nsel l) (coll0 l) (ngrab l) (ntake l).
+Definition l_owed l x := mkl (base l) (wpc l) (evfd l) (tmo l) (dl l) (slept l) (now l) x (anon l) (pre l) (npop l) (ncoll l) (nsel l) (coll0 l) (ngrab l) (ntake l).
+Definition l_anon l x := mkl (base l) (wpc l) (evfd l) (tmo l) (dl l) (slept l) (now l) (owed l) x (pre l) (npop l) (ncoll l) (nsel l) (coll0 l) (ngrab l) (ntake l).
+Definition l_pre l x := mkl (base l) (wpc l) (evfd l) (tmo l) (dl l) (slept l) (now l) (owed l) (anon l) x (npop l) (ncoll l) (nsel l) (coll0 l) (ngrab l) (ntake l).
+Definition l_npop l x := mkl (base l) (wpc l) (evfd l) (tmo l) (dl l) (slept l) (now l) (owed l) (anon l) (pre l) x (ncoll l) (nsel l) (coll0 l) (ngrab l) (ntake l).
+Definition l_ncoll l x := mkl (base l) (wpc l) (evfd l) (tmo l) (dl l) (slept l) (now l) (owed l) (anon l) (pre l) (npop l) x (nsel l) (coll0 l) (ngrab l) (ntake l).
+Definition l_nsel l x := mkl (base l) (wpc l) (evfd l) (tmo l) (dl l) (slept l) (now l) (owed l) (anon l) (pre l) (npop l) (ncoll l) x (coll0 l) (ngrab l) (ntake l).
+Definition l_coll0 l x := mkl (base l) (wpc l) (evfd l) (tmo l) (dl l) (slept l) (now l) (owed l) (anon l) (pre l) (npop l) (ncoll l) (nsel l) x (ngrab l) (ntake l).
+Definition l_ngrab l x := mkl (base l) (wpc l) (evfd l) (tmo l) (dl l) (slept l) (now l) (owed l) (anon l) (pre l) (npop l) (ncoll l) (nsel l) (coll0 l) x (ntake l).
+
+Definition l_ntake l x := mkl (base l) (wpc l) (evfd l) (tmo l) (dl l) (slept l) (now l) (owed l) (anon l) (pre l) (npop l) (ncoll l) (nsel l) (coll0 l) (ngrab l) x.
 
 Definition set_pc l w p := l_wpc l (upd (wpc l) w p).
 Definition set_evfd l k b := l_evfd l (upd (evfd l) k b).
 Definition inc (f : nat -> nat) k := upd f k (S (f k)).
 Definition dec (f : nat -> nat) k := upd f k (Nat.pred (f k)).
 Definition grabbed l (o : option nat) := match o with Some c => l_ngrab l (inc (ngrab l) c) | None => l end.
+Definition taken l (o : option nat) := match o with Some c => l_ntake l (inc (ntake l) c) | None => l end.
 
 Definition is_nil {X} (l : list X) : bool := match l with [] => true | _ => false end.
 Definition is_co (p : lpc) : bool := match p with PCo _ => true | _ => false end.
@@ -235,12 +243,12 @@ Definition guard (P : params) (l : lst) (a : laction) : bool :=
   | LPut w => (w <? n) && match wpc l w with PPut _ | PStPut | PIo _ => true | _ => false end
   | LPop w => (w <? n) && match wpc l w with PRun => true | _ => false end
   | LResume w => (w <? n) && match wpc l w with PRes _ => negb (is_nil (hand s w)) | _ => false end
-  | LCoRet w => (w <? n) && match wpc l w with PCo _ => is_nil (stk s w) | _ => false end
+  | LCoRet w => (w <? n) && match wpc l w with PCo _ => is_nil (stk s w) && is_nil (hand s w) | _ => false end
   | LHas w => (w <? n) && match wpc l w with PHas => true | _ => false end
   | LStGrab w | LStEnd w => (w <? n) && match wpc l w with PSteal i => i <? maxst n | _ => false end
   | LStOut w => (w <? n) && match wpc l w with PSteal i => maxst n <=? i | _ => false end
   | LTmTake w _ => (w <? n) && match wpc l w with PTim => true | _ => false end
-  | LTmDone w _ => (w <? n) && match wpc l w with PTim => is_nil (hand s w) | _ => false end
+  | LTmDone w _ => (w <? n) && match wpc l w with PTim => true | _ => false end
   | LAnonWake k => (k <? n) && push_first P && (0 <? anon l k)
   | LAnonPre k => (k <? n) && negb (push_first P)
   | LTick _ => true
@@ -310,7 +318,7 @@ Definition ctl (P : params) (l : lst) (a : laction) (s' : st) : lst :=
   | LPop w =>
       let l1 := l_npop l0 (inc (npop l) w) in
       match lq s w with
-      | c :: _ => set_pc (grabbed l1 (Some c)) w (PRes RRun)
+      | c :: _ => set_pc (taken l1 (Some c)) w (PRes RRun)
       | [] => set_pc l1 w (if work_steal P then PColl FromRun else PTim) end
   | LResume w => match wpc l w with PRes r => set_pc l0 w (PCo r) | _ => l0 end
   | LCoRet w => match wpc l w with
@@ -320,7 +328,7 @@ Definition ctl (P : params) (l : lst) (a : laction) (s' : st) : lst :=
                 | _ => l0 end
   | LHas w => set_pc l0 w (if is_nil (lq s w) then PSteal 0 else PRun)
   | LStGrab w => match wpc l w with
-                 | PSteal i => grabbed l0 (hd_error (lq s (victim n w i)))
+                 | PSteal i => taken l0 (hd_error (lq s (victim n w i)))
                  | _ => l0 end
   | LStEnd w => match wpc l w with
                 | PSteal i => match hand s w with
@@ -350,7 +358,7 @@ Definition lstep (P : params) (l : lst) (a : laction) : option lst :=
 
 Definition linit (n : nat) : lst :=
   mkl (init n) (fun _ => PWait) (fun _ => false) (fun _ => None) (fun _ => None) (fun _ => 0%N) 0%N
-      (fun _ => 0) (fun _ => 0) (fun _ => 0) (fun _ => 0) (fun _ => 0) (fun _ => 0) (fun _ => 0) (fun _ => 0).
+      (fun _ => 0) (fun _ => 0) (fun _ => 0) (fun _ => 0) (fun _ => 0) (fun _ => 0) (fun _ => 0) (fun _ => 0) (fun _ => 0).
 
 Inductive LReach (P : params) (n : nat) : lst -> Prop :=
 | LR0 : LReach P n (linit n)
